@@ -35,10 +35,8 @@ def tests(wt):
 def main():
     out, name, prop, checks = sys.argv[1], sys.argv[2], sys.argv[3], sys.argv[4].split(",")
     skip = "--skip-confirm" in sys.argv
-    suffix = ""
-    m = re.search(r"(\d)$", name)
-    patch = os.path.join(out, "patch%s.diff" % (m.group(1) if m and os.path.exists(os.path.join(out, "patch%s.diff" % m.group(1))) else ""))
-    sfx = m.group(1) if m and os.path.exists(os.path.join(out, "patch%s.diff" % m.group(1))) else ""
+    sfx = "2" if name.endswith("b") else ""
+    patch = os.path.join(out, "patch%s.diff" % sfx)
     demo_patch = os.path.join(out, "demo%s.patch" % sfx)
     wt = "/tmp/seedconfirm_wt"
     res = {"name": name, "property": prop}
